@@ -271,7 +271,7 @@ func (f *frame) applyContract(callee *ssa.Function, con *Contract, args []Val, s
 	}
 	pre := st.clone()
 	mkEnv := func(cur *State) *SpecEnv {
-		env := &SpecEnv{G: g, Pkg: callee.Pkg.Pkg, Vars: map[string]SV{}, Cur: cur, Old: pre, Next0: pre.next}
+		env := &SpecEnv{G: g, Pkg: callee.Pkg.Pkg, Vars: map[string]SV{}, Cur: cur, Old: pre, Next0: pre.next, FnScope: fnScope(callee)}
 		for i, p := range callee.Params {
 			env.Vars[p.Name()] = SV{Term: args[i].T, Typ: p.Type()}
 		}
@@ -285,7 +285,7 @@ func (f *frame) applyContract(callee *ssa.Function, con *Contract, args []Val, s
 	if callee == c.top {
 		if con.Decreases != nil {
 			mCall := env.Eval(con.Decreases.Expr).Term
-			e0 := &SpecEnv{G: g, Pkg: callee.Pkg.Pkg, Vars: map[string]SV{}, Cur: c.entry, Old: c.entry, Next0: c.entry.next}
+			e0 := &SpecEnv{G: g, Pkg: callee.Pkg.Pkg, Vars: map[string]SV{}, Cur: c.entry, Old: c.entry, Next0: c.entry.next, FnScope: fnScope(callee)}
 			for i, p := range callee.Params {
 				e0.Vars[p.Name()] = SV{Term: c.topArgs[i].T, Typ: p.Type()}
 			}
@@ -425,7 +425,7 @@ func (f *frame) builtin(bi *ssa.Builtin, cm *ssa.CallCommon, pos token.Pos, st *
 }
 
 // moveDef builds the quantified definition of heap h2 from h1 for an append/copy.
-func (f *frame) appendHeaps(st *State, et types.Type, s, t string, inplace string, newArr string) {
+func (f *frame) appendHeaps(st *State, et types.Type, s, t string, inplace string, newArr string, res string) {
 	c := f.c
 	n := fmt.Sprintf("(slen %s)", t)
 	for _, h := range c.g.elemHeaps(et) {
@@ -444,6 +444,13 @@ func (f *frame) appendHeaps(st *State, et types.Type, s, t string, inplace strin
 		}
 		fresh := fmt.Sprintf("(ite (and ((_ is elem) r) (= (earr r) %s) (<= 0 (eidx r)) (< (eidx r) (slen %s))) %s (ite (and ((_ is elem) r) (= (earr r) %s) (<= (slen %s) (eidx r)) (< (eidx r) (+ (slen %s) %s))) %s %s))", newArr, s, srcS, newArr, s, s, n, srcT2, rest)
 		c.assume(st, fmt.Sprintf("(forall ((r Ref)) (! (= (select %s r) (ite %s %s %s)) :pattern ((select %s r))))", nh, inplace, inpl, fresh, nh))
+		// derived lemma (a consequence of the definition above in both branches, stated so that E-matching finds it
+		// from a read of the RESULT slice): the first len(s) elements of the result are the elements of s.
+		if res != "" {
+			c.assume(st, fmt.Sprintf("(forall ((i Int)) (! (=> (and (<= 0 i) (< i (slen %s))) (= (select %s (selem %s i)) (select %s (selem %s i)))) :pattern ((selem %s i)) :pattern ((selem %s i))))", s, nh, res, cur, s, res, s))
+			// ... and the first appended element (ground instance: puts the term result[len(s)] into the E-graph)
+			c.assume(st, fmt.Sprintf("(=> (< 0 %s) (= (select %s (selem %s (slen %s))) (select %s (selem %s 0))))", n, nh, res, s, cur, t))
+		}
 		st.heaps[h] = nh
 	}
 }
@@ -471,7 +478,7 @@ func (f *frame) doAppend(cm *ssa.CallCommon, pos token.Pos, st *State, name stri
 	// Go: append(nil, <empty>) returns nil; our model returns a non-nil empty slice in that case only
 	// when cap is exceeded, which cannot happen for n = 0 (0 <= cap). Fine.
 	f.tagAlloc(st, id, et)
-	f.appendHeaps(st, et, s.T, t.T, inplace, id)
+	f.appendHeaps(st, et, s.T, t.T, inplace, id, res)
 	return Val{T: res, Typ: slT}
 }
 
